@@ -177,7 +177,11 @@ def _run_ops(ops, only_dec=None, skip_junk=False):
             continue
         if o["op"] == "create_dec":
             kw = _mk_cfg(o["cfg"], shared)
-            decs[o["d"]] = NMEA2000Decoder(**kw) if kw else NMEA2000Decoder()
+            try:
+                decs[o["d"]] = NMEA2000Decoder(**kw) if kw else NMEA2000Decoder()
+                r = ("created",)
+            except Exception as e:          # a valid configuration must construct, whatever happened before
+                r = ("exc", type(e).__name__ + ": " + str(e)[:80])
             fm[o["d"]] = o["fmt"]
         elif o["op"] == "create_enc":
             if only_dec is None:
@@ -298,7 +302,7 @@ def execute(plan):
         for d in decs:
             solo = _in_child(_run_ops, ops, d)["results"]
             for i, o in enumerate(ops):
-                if o.get("d") == d and o["op"] in ("feed", "raw", "probe_fast") and solo[i] != res[i]:
+                if o.get("d") == d and o["op"] in ("feed", "raw", "probe_fast", "create_dec") and solo[i] != res[i]:
                     v.append(viol("C16.I1", i, "decoder %d, operation %d (%s): interleaved with other instances it returned %s, alone in a "
                                   "pristine process %s" % (d, i, _op(o), _short(res[i]), _short(solo[i]))))
                     break
